@@ -82,6 +82,21 @@ def make_cases(ctx):
                             yield "dres-%d-%s-%d%d%d-%s" % (
                                 ver[1], mech, cauth, ems, etm, cipher), {
                                 "dres": [ver, mech, cauth, ems, etm, cipher]}
+    # what is negotiated afresh on every connection (ALPN, NPN, server
+    # name) against resumption: the second connection's own offer decides
+    for ver in pair.VERSIONS[1:]:
+        for mech in ("id", "ticket"):
+            if ver == (3, 4) and mech == "id":
+                continue
+            for first in ("h2", None):
+                for second in ("h2", "http/1.1", None):
+                    if first is None and second is None:
+                        continue
+                    yield "dalpn-%d-%s-%s-%s" % (ver[1], mech, first,
+                                                 second), {
+                        "dres": [ver, mech, False, ver > (3, 0), True,
+                                 "aes128gcm" if ver >= (3, 3) else "aes128"],
+                        "alpn": [first, second]}
 
 
 def chain_bytes(chain):
@@ -291,6 +306,12 @@ def run_dres(ctx, cid, P):
     fl = Flavor("cert", skey="rsa", ckey="rsa" if cauth else None,
                 req_cert=cauth, cset=cs, sset=ss, session_cache=cache,
                 sni=sni)
+    alpn2 = "same"
+    if P.get("alpn"):
+        a1, alpn2 = P["alpn"]
+        if a1:
+            fl.alpn_c = [a1.encode(), b"spare"]
+            fl.alpn_s = [b"other", a1.encode()]
     p = Pair()
     tc, ts = p.handshake(fl)
     ctx.ev()
@@ -305,7 +326,16 @@ def run_dres(ctx, cid, P):
     first = {"etm": bool(p.s.encryptThenMAC), "ems": bool(
         p.s.extendedMasterSecret), "suite": p.s.session.cipherSuite}
     ctx.count("directed_resumption_sources")
-    resumed_agreement(ctx, p, fl, fkey, desc, want=first, cauth=cauth)
+    if alpn2 != "same":
+        if alpn2:
+            fl.alpn_c = [alpn2.encode(), b"spare"]
+            fl.alpn_s = [b"other", alpn2.encode()]
+        else:
+            fl.alpn_c = fl.alpn_s = None
+        desc["alpn"] = P["alpn"]
+        fkey = dict(fkey, alpn_changed=True)
+    resumed_agreement(ctx, p, fl, fkey, desc, want=first, cauth=cauth,
+                      alpn=alpn2)
 
 
 # host names of every valid shape (tlslite.utils.dns_utils): trailing dot,
@@ -619,7 +649,8 @@ def run_case(ctx, cid, P):
         resumed_agreement(ctx, p, fl, fkey, desc)
 
 
-def resumed_agreement(ctx, p, fl, fkey, desc, want=None, cauth=False):
+def resumed_agreement(ctx, p, fl, fkey, desc, want=None, cauth=False,
+                      alpn="same"):
     """the same two parties connect again offering the session: both ends of
     the second connection must agree as well (whether or not it resumed)"""
     from vt.flavours import pump
@@ -715,6 +746,18 @@ def resumed_agreement(ctx, p, fl, fkey, desc, want=None, cauth=False):
                 ctx.violation(dict(fk, clause="view_mismatch",
                                    field="exporter"), desc,
                               "exporter differs on the second connection")
+    if alpn != "same":
+        # the application protocol is the one negotiated on *this*
+        # connection (RFC 7301 3.1: not carried over by resumption)
+        wantp = alpn.encode() if alpn else b""
+        for who, conn in (("client", c), ("server", s)):
+            have = bytes(conn.session.appProto or b"")
+            if have != wantp:
+                ctx.violation(dict(fk, clause="view_mismatch",
+                                   field="appProto_vs_offer", who=who), desc,
+                              "%s reports application protocol %r on the "
+                              "second connection, negotiated there: %r" % (
+                                  who, have, wantp))
     for name, a, b in (
             ("ems_conn", c.extendedMasterSecret, s.extendedMasterSecret),
             ("etm_conn", bool(c.encryptThenMAC), bool(s.encryptThenMAC)),
